@@ -1,9 +1,9 @@
 (* C09 -- Shard files answer every lookup exactly as the data they were built from.
    Statements only.  The codecs ser_X/de_X are generated from the write_*/read_* call sequences of
    the Rust serialize/deserialize functions on every run (Gen/ShardLayout.v). *)
-From Coq Require Import NArith Bool List.
+From Coq Require Import NArith Bool List Permutation Sorted.
 Import ListNotations.
-From XetModel Require Import Base.Codec Gen.ShardLayout Model.Merkle Model.Shard Proofs.CodecProofs Proofs.ShardProofs.
+From XetModel Require Import Base.Codec Gen.ShardLayout Model.Merkle Model.Shard Proofs.CodecProofs Proofs.ShardProofs Proofs.SearchProofs.
 Open Scope N_scope.
 
 (* every fixed-width record codec round-trips (whatever field order the source uses, as long as
@@ -39,6 +39,15 @@ Theorem C09_cas_section_scan : forall cs rest fuel, Forall wf_cas cs -> (length 
   parse_all parse_cas_info fuel (flat_map ser_cas_info cs ++ cas_bookend ++ rest) = Some (cs, rest).
 Proof. exact parse_all_cas. Qed.
 
+(* the lookup tables: for EVERY probe function (the code's f64 interpolation estimate, exact rationals, anything), every
+   table sorted by key, every key and every cap > 0, the interpolation search of search_on_sorted_u64s stays inside
+   its fuel and returns the first [cap] of exactly the values stored under the key -- all of them and nothing else
+   (their order among equal keys is unspecified) *)
+Theorem C09_lookup_search_exact : forall (V : Type) (probe : N -> N -> N -> N -> N -> N) (tbl : list (N * V)) key cap,
+  StronglySorted (fun a b => fst a <= fst b) tbl -> (0 < cap)%nat ->
+  exists l, search probe tbl cap key = Some (firstn cap l) /\ Permutation l (map snd (filter (fun e => fst e =? key) tbl)).
+Proof. exact (fun V probe tbl key cap Hs => search_exact probe tbl key Hs cap). Qed.
+
 (* non-vacuity: a record with both optional parts satisfies wf_file *)
 Definition ex_h (b : N) : hash := repeat b 32%nat.
 Definition ex_file : file_info :=
@@ -57,3 +66,4 @@ Print Assumptions C09_file_record_roundtrip.
 Print Assumptions C09_cas_record_roundtrip.
 Print Assumptions C09_file_section_scan.
 Print Assumptions C09_cas_section_scan.
+Print Assumptions C09_lookup_search_exact.
